@@ -48,12 +48,27 @@ def variants(nd):
     mut("penalty orders neither 1 nor ndim", lambda v: v.update(penalty=[2] * (nd + 1)))
     mut("data index equal to its declared range", lambda v: v["idx"][nd - 1].__setitem__(2, v["ranges"][nd - 1]))
     mut("declared range beyond the length of the coordinate vector", lambda v: (v["ranges"].__setitem__(0, v["ranges"][0] + 2), v["idx"][0].__setitem__(1, v["ranges"][0] - 1)))
+    mut("declared range beyond the length of the coordinate vector, every index used is small", lambda v: v["ranges"].__setitem__(0, v["ranges"][0] + 2))
     mut("unsorted knots", lambda v: v["knots"][0].__setitem__(3, v["knots"][0][1]))
     mut("too few knots for the order (nknots == 2*order+1)", lambda v: v["knots"].__setitem__(0, v["knots"][0][:2 * v["orders"][0] + 1]))
     mut("too few knots for the order (nknots == order+1)", lambda v: v["knots"].__setitem__(0, v["knots"][0][:v["orders"][0] + 1]))
     mut("monotonic dimension == ndim", lambda v: v.update(monodim=nd))
     mut("monotonic dimension far out of range", lambda v: v.update(monodim=7))
     return out
+
+def fit_call(it, pb):
+    F = lambda q: G.FV(Fr(q), Fr(q))
+    orders_arg = pb.get("orders_arg", pb["orders"]); knots_arg = pb.get("knots_arg", pb["knots"]); ndd = pb["nd"]
+    data_i = it.array("data_i", [G.Ptr(it.array("idx%d" % d, list(pb["idx"][d])), 0) for d in range(ndd)])
+    ranges = it.array("ranges", list(pb["ranges"]))
+    A = lambda name, vals: G.Ptr(it.array(name, vals), 0)
+    coords = A("coords", [A("coord%d" % d, [F(v) for v in c]) for d, c in enumerate(pb["coords"])])
+    knots = A("knotsarg", [A("knotvec%d" % d, [F(v) for v in k]) for d, k in enumerate(knots_arg)])
+    ksz = A("knot_sizes", [len(k) for k in knots_arg])
+    mono = (1 << 32) - 1 if pb["monodim"] is None else pb["monodim"]
+    it.call("fit", [pb["rows"], ndd, G.Ptr(data_i, 0), G.Ptr(ranges, 0), A("weights", [F(v) for v in pb["weights"]]), len(pb["weights"]), coords, len(pb["coords"]), A("coord_sizes", [len(c) for c in pb["coords"]]),
+                    A("orders", list(orders_arg)), len(orders_arg), knots, len(knots_arg), ksz, A("smoothing", [F(v) for v in pb["smoothing"]]), len(pb["smoothing"]),
+                    A("penalty", list(pb["penalty"])), len(pb["penalty"]), mono, False])
 
 def run_case(args):
     nd, label, pb, must_throw = args; t0 = time.time()
@@ -92,18 +107,8 @@ def run_case(args):
             rd(outc, n, "output coefficients")
             calls.append(("glam", ndim_, mono)); return 0
         it.hooks["glamfit_complex"] = h_glam
-        orders_arg = pb.get("orders_arg", pb["orders"]); knots_arg = pb.get("knots_arg", pb["knots"])
-        ndd = pb["nd"]
-        data_i = it.array("data_i", [G.Ptr(it.array("idx%d" % d, list(pb["idx"][d])), 0) for d in range(ndd)])
-        ranges = it.array("ranges", list(pb["ranges"]))
-        A = lambda name, vals: G.Ptr(it.array(name, vals), 0)
-        coords = A("coords", [A("coord%d" % d, [F(v) for v in c]) for d, c in enumerate(pb["coords"])])
-        knots = A("knotsarg", [A("knotvec%d" % d, [F(v) for v in k]) for d, k in enumerate(knots_arg)])
-        ksz = A("knot_sizes", [len(k) for k in knots_arg])
-        mono = (1 << 32) - 1 if pb["monodim"] is None else pb["monodim"]
-        it.call("fit", [pb["rows"], ndd, G.Ptr(data_i, 0), G.Ptr(ranges, 0), A("weights", [F(v) for v in pb["weights"]]), len(pb["weights"]), coords, len(pb["coords"]), A("coord_sizes", [len(c) for c in pb["coords"]]),
-                        A("orders", list(orders_arg)), len(orders_arg), knots, len(knots_arg), ksz, A("smoothing", [F(v) for v in pb["smoothing"]]), len(pb["smoothing"]),
-                        A("penalty", list(pb["penalty"])), len(pb["penalty"]), mono, False])
+        ndd = pb["nd"]; mono = (1 << 32) - 1 if pb["monodim"] is None else pb["monodim"]
+        fit_call(it, pb)
         g = lambda n: it.globals[n].cells[0]
         thrown = g("vp_thrown"); bad = []
         if must_throw:
@@ -127,7 +132,21 @@ def run_case(args):
                 na = [len(pb["knots"][d]) - pb["orders"][d] - 1 for d in range(ndd)]; st = [1] * ndd
                 for d in range(ndd - 2, -1, -1): st[d] = st[d + 1] * na[d + 1]
                 if list(g("naxes").obj.cells) != na or list(g("strides").obj.cells) != st or len(g("coefficients").obj.cells) != st[0] * na[0]: bad.append("naxes/strides/coefficient storage not well-formed")
-        return [(tag + (" -> rejected by exception, table untouched" if must_throw else " -> runs inside its objects, fitter preconditions met, well-formed table"), not bad, "; ".join(bad)[:500], time.time() - t0)]
+        out = [(tag + (" -> rejected by exception, table untouched" if must_throw else " -> runs inside its objects, fitter preconditions met, well-formed table"), not bad, "; ".join(bad)[:500], time.time() - t0)]
+        if must_throw:
+            # the same rejected call on a POPULATED table: the table must come through unchanged
+            import c20
+            it2, al2 = T.new_object(prog, params, units.cfitsio_constants(), T.Disk(), X14.RatDom())
+            c20.call_fit(it2, "ok1" if nd == 1 else "ok2"); before = c20.state(it2, al2); live_before = set(al2.live.keys())
+            it2.hooks["add_penalty_term"] = h_pen; it2.hooks["glamfit_complex"] = h_glam; it2.hooks["vp_max_element_u"] = h_max; calls.clear()
+            it2.globals["vp_thrown"].cells[0] = 0
+            fit_call(it2, pb)
+            bad2 = []
+            if not it2.globals["vp_thrown"].cells[0]: bad2.append("inconsistent arguments were accepted (no exception)")
+            after = c20.state(it2, al2)
+            if after != before or set(al2.live.keys()) != live_before: bad2.append("the populated table was modified by the rejected call (ndim %s -> %s)" % (before[1]["order"] if before[0] == "table" else before[0], after[1]["order"] if after[0] == "table" else after[0]))
+            out.append((tag + " -> rejected on a populated table, which stays unchanged", not bad2, "; ".join(bad2)[:500], time.time() - t0))
+        return out
     except Exception as ex:
         return [(tag + " execution [%s]" % str(ex)[:90], False, "%s: %s" % (type(ex).__name__, ex), time.time() - t0)]
 
